@@ -33,6 +33,9 @@ structure State where
   closed : List Nat := []               -- descriptors the framework closed, in order
   opened : List (Nat × Nat) := []       -- ghost: (fd, loop) for every OnOpen, in order
   assigned : List (Nat × Nat) := []     -- ghost: (fd, loop the load balancer chose)
+  enrolled : List Nat := []             -- descriptors created by Register/Enroll calls that were ACCEPTED (returned nil)
+  results : List Nat := []              -- enrolled descriptors whose caller has been given its RegisteredResult
+  inShutdown : Bool := false            -- the flag Register/Enroll look at: set when everything has stopped
   deriving Repr
 
 def init (n : Nat) : State := { loops := List.replicate n {} }
@@ -45,6 +48,9 @@ inductive Step where
   | requestStop                 -- Engine.Stop / Stop / engine.shutdown
   | postSentinels               -- engine.stop: Trigger(shutdown sentinel) on every loop and on the acceptor
   | acceptorExit                -- the acceptor runs its sentinel
+  | enroll (l : Nat)            -- a foreign goroutine calls Register/Enroll: accepted unless the engine has shut down;
+                                -- a descriptor is duplicated, the balancer picks loop l, Trigger(register + result callback)
+  | setFlag                     -- engine.stop: everything has stopped, the in-shutdown flag is set
   deriving Repr
 
 def setLoop (s : State) (l : Nat) (x : Loop) : State := { s with loops := s.loops.set l x }
@@ -69,7 +75,10 @@ def step (s : State) : Step → State
       if x.running then
         match x.queue with
         | .register fd :: q =>
-          { setLoop s l { x with queue := q, conns := x.conns ++ [fd] } with opened := s.opened ++ [(fd, l)] }
+          { setLoop s l { x with queue := q, conns := x.conns ++ [fd] } with
+            opened := s.opened ++ [(fd, l)],
+            -- the registration of an enrolled connection delivers the caller's result
+            results := if fd ∈ s.enrolled then s.results ++ [fd] else s.results }
         | .sentinel :: q => exitLoop s l { x with queue := q }
         | [] => s
       else s
@@ -91,6 +100,15 @@ def step (s : State) : Step → State
       { s with sentinelsPosted := true, loops := s.loops.map fun x => { x with queue := x.queue ++ [.sentinel] } }
     else s
   | .acceptorExit => if s.sentinelsPosted then { s with acceptorRunning := false } else s
+  | .enroll l =>
+    match s.loops[l]? with
+    | some x =>
+      if ¬ s.inShutdown then
+        { setLoop s l { x with queue := x.queue ++ [.register s.nextFd] } with
+          nextFd := s.nextFd + 1, assigned := s.assigned ++ [(s.nextFd, l)], enrolled := s.enrolled ++ [s.nextFd] }
+      else s
+    | none => s
+  | .setFlag => if !s.acceptorRunning && s.loops.all (!·.running) then { s with inShutdown := true } else s
 
 def run (s : State) : List Step → State
   | [] => s
@@ -101,6 +119,9 @@ def Reachable (s : State) : Prop := ∃ n steps, s = run (init n) steps
 /-- everything has stopped: this is when `Run` returns -/
 def Final (s : State) : Bool := !s.acceptorRunning && s.loops.all (!·.running)
 
+/-- accepted Register/Enroll calls whose caller never got a result -/
+def unanswered (s : State) : List Nat := s.enrolled.filter (· ∉ s.results)
+
 /-- descriptors still waiting in the queue of loop x -/
 def pendingOf (x : Loop) : List Nat :=
   x.queue.filterMap fun t => match t with | .register fd => some fd | .sentinel => none
@@ -109,7 +130,7 @@ def pending (s : State) : List Nat := (s.loops.map pendingOf).flatten
 def registered (s : State) : List Nat := (s.loops.map (·.conns)).flatten
 
 /-- every descriptor the acceptor ever created -/
-def created (s : State) : List Nat := List.range s.nextFd
+def created (s : State) : List Nat := List.range s.nextFd   -- by the acceptor or by an enrolment
 
 /-- descriptors the framework created and has not closed -/
 def unclosed (s : State) : List Nat := (created s).filter (· ∉ s.closed)
